@@ -105,6 +105,11 @@ def make_session(rng, names, n_calls, model_seq=None):
             if x < 0.08:
                 calls.append(("setmathml", None, None))
                 continue
+            if x > 0.93:
+                # navigation writes its own state back into the preferences (NavMode): nothing else may change, and no
+                # preference may change its KIND on the way (a boolean stored back as a string accepts anything afterwards)
+                calls.append(("nav", rng.choice(["ZoomIn", "MoveNext", "ToggleSpeakMode", "ZoomOut", "ToggleZoomLockUp", "ReadCurrent", "MoveLastLocation"]), None))
+                continue
             name = rng.choice(UNKNOWN_NAMES) if x < 0.18 else rng.choice(names)
             pool = VALID.get(name, []) * 3 + GENERIC
             value = rng.choice(pool)
@@ -118,6 +123,8 @@ def make_session(rng, names, n_calls, model_seq=None):
     for k, name, value in calls:
         if k == "setmathml":
             ops.append({"op": "set_mathml", "mathml": rng.choice([EXPR, EXPR2, EXPR])})
+        elif k == "nav":
+            ops.append({"op": "nav_cmd", "cmd": name})
         else:
             ops.append({"op": "set_pref", "name": name, "value": value})
         ops += OBS
@@ -142,11 +149,12 @@ def project(script, res):
     ops, rs = script["ops"], res["results"]
     events, info = [{"k": "session"}], [0]
     prev = None
+    first_dump = None
     i = 2
     cur_expr = None
     while i < len(ops):
         op = ops[i]
-        if op["op"] in ("set_pref", "set_mathml") and i + 4 < len(ops) + 1:
+        if op["op"] in ("set_pref", "set_mathml", "nav_cmd") and i + 4 < len(ops) + 1:
             r = rs[i]
             pa, pd, sp, br = rs[i + 1], rs[i + 2], rs[i + 3], rs[i + 4]
             after = {n: (v if v is not None else "\u0000none") for n, v in (pa["v"] or {}).items()} if pa["r"] == "ok" else None
@@ -157,7 +165,8 @@ def project(script, res):
                 cur_expr = op["mathml"]
             if prev is not None and prev["prefs"] is not None and after is not None:
                 if op["op"] == "set_pref":
-                    kind = kind_of(prev["dump"], op["name"])
+                    # the kind a preference HAS is the kind it had when the session started (prefs.yaml / the API defaults)
+                    kind = kind_of(first_dump, op["name"]) if kind_of(first_dump, op["name"]) != "none" else kind_of(prev["dump"], op["name"])
                     same_expr = True
                     e = {"k": "set", "name": op["name"], "value": op["value"], "res": r["r"], "kind": kind, "vclass": vclass(op["value"]),
                          "langOk": lang_ok(op["value"]), "expect": expect(op["name"], op["value"], kind),
@@ -167,7 +176,7 @@ def project(script, res):
                     e["swiss"] = 1 if (lg.split("-") + [""])[1] in ("ch", "li") else 0
                     e["blockPeriod"], e["blockComma"] = ", \u00a0\u202f", ". \u00a0\u202f"
                 else:
-                    e = {"k": "setmathml", "name": "", "value": "", "res": r["r"], "kind": "none", "vclass": "other", "langOk": 1, "expect": "",
+                    e = {"k": "setmathml" if op["op"] == "set_mathml" else "nav", "name": "", "value": "", "res": r["r"], "kind": "none", "vclass": "other", "langOk": 1, "expect": "",
                          "before": prev["prefs"], "after": after, "spB": "", "spA": "", "brB": "", "brA": ""}
                 # a name that is not among the read-back names cannot be looked up in the record: give it a slot
                 if e["k"] == "set" and op["name"] not in after:
@@ -175,6 +184,8 @@ def project(script, res):
                     e["before"] = dict(prev["prefs"], **{op["name"]: "\u0000none"})
                 events.append(e)
                 info.append(i)
+            if first_dump is None and snap["dump"]:
+                first_dump = snap["dump"]
             prev = snap
             i += 5
         else:
@@ -237,8 +248,13 @@ def run(tier):
         si, oi = back[idx - 1]
         e = events[idx - 1]
         changed = sorted(n for n in e["before"] if e["before"].get(n) != e["after"].get(n))
-        text = (f"{reason}: set_preference({e['name']!r}, {e['value']!r}) -> {e['res']} (stored kind {e['kind']}); read-back "
-                f"{e['after'].get(e['name'])!r}, expected {e['expect']!r}; preferences changed: {changed[:6]}")
+        if e["k"] in ("nav", "setmathml"):
+            o = scripts[si]["ops"][oi]
+            text = (f"{reason}: {o['op']}({o.get('cmd') or ''}) -> {e['res']}; preferences changed: "
+                    f"{[(n, e['before'].get(n), e['after'].get(n)) for n in changed[:6]]}")
+        else:
+            text = (f"{reason}: set_preference({e['name']!r}, {e['value']!r}) -> {e['res']} (kind {e['kind']}); read-back "
+                    f"{e['after'].get(e['name'])!r}, expected {e['expect']!r}; preferences changed: {changed[:6]}")
         verdict.reject(f"{reason}|{e['name']}|{e['vclass']}|{e['kind']}", text, {"script": scripts[si]["ops"][:oi + 5]},
                        text=json.dumps({"reason": reason, "name": e["name"], "value": e["value"], "kind": e["kind"], "changed": changed}))
     rc = verdict.finish(wd)
